@@ -329,6 +329,50 @@ func run(c Case) (pbt.Outcome, error) {
 			if p != nil && p == interface{}(sentinel) && len(cbErrs) == before {
 				errs.Addf("op %d: sentinel panic without a callback call?!", oi)
 			}
+			// every flavour except histogram-flavoured timers sharing a name with a histogram is a
+			// registration Prometheus rejects (same name, other type or other label names): it must
+			// reach the error callback
+			expectReject := !(c.TimerHist && (op.What == "timer-then-histogram" || op.What == "histogram-then-timer"))
+			if expectReject && len(cbErrs) == before {
+				errs.Addf("op %d (%s, timerHist=%v): the second registration is one Prometheus rejects, but the error callback was not called", oi, op.What, c.TimerHist)
+			}
+			// the same request made on the reporter directly: whenever the callback returns the
+			// caller gets a usable (possibly no-op) metric, never nil
+			tags2 := labels
+			if s2 == other {
+				tags2 = map[string]string{"other": "keys"}
+			}
+			if pd := try(func() {
+				switch second {
+				case "counter":
+					if h := rep.AllocateCounter(name, tags2); h == nil {
+						errs.Addf("op %d (%s): AllocateCounter returned nil", oi, op.What)
+					} else {
+						h.ReportCount(1)
+					}
+				case "gauge":
+					if h := rep.AllocateGauge(name, tags2); h == nil {
+						errs.Addf("op %d (%s): AllocateGauge returned nil", oi, op.What)
+					} else {
+						h.ReportGauge(1)
+					}
+				case "timer":
+					if h := rep.AllocateTimer(name, tags2); h == nil {
+						errs.Addf("op %d (%s, timerHist=%v): AllocateTimer returned nil after a rejected registration", oi, op.What, c.TimerHist)
+					} else {
+						h.ReportTimer(time.Second)
+					}
+				case "histogram":
+					if h := rep.AllocateHistogram(name, tags2, tally.ValueBuckets{1, 2}); h == nil {
+						errs.Addf("op %d (%s): AllocateHistogram returned nil", oi, op.What)
+					} else {
+						h.ValueBucket(1, 2).ReportSamples(1)
+						h.DurationBucket(time.Second, 2*time.Second).ReportSamples(1)
+					}
+				}
+			}); pd != nil && !(pd == interface{}(sentinel) && c.PanicCB) {
+				errs.Addf("op %d (%s): the same request made on the reporter directly panicked: %v", oi, op.What, pd)
+			}
 			// a rejected second registration (same kind, other tag keys) must leave the first,
 			// legitimate family exposed with what was recorded on it
 			if strings.HasSuffix(op.What, "-other-tagkeys") && (p == nil || p == interface{}(sentinel)) {
@@ -491,7 +535,7 @@ func run(c Case) (pbt.Outcome, error) {
 func TestC17(t *testing.T) {
 	pbt.Main(t, pbt.Prop[Case]{
 		ID: "C17", Name: "prometheus",
-		Rule: "rapid-generated histories (1..30 ops) on a tally root whose cached reporter is the Prometheus reporter on a fresh registry (separator '_', Prometheus sanitizer; timers as summaries or histograms; error callback returning or panicking with a sentinel): counters (non-negative deltas), gauges (hostile float bits), timers, value and duration histograms with GENERATED strictly increasing finite specs (1..8 bounds from pools of decimals, huge/tiny magnitudes, one-ulp neighbours; durations ns..11 days incl. millisecond-granular bounds above 1 s) and samples on / one ulp or ns above and below / around the bounds, 1..4 tagged scopes with the same tag keys and different values, report passes, and conflict programs (a name reused for another kind: counter/gauge, timer/histogram, counter/timer, histogram/counter; or with other tag keys) whose result is then used through every method. Oracle after a final pass: Gather() shows counter == sum, gauge == last update (bits), cumulative bucket counts == #samples <= bound with bounds == spec (durations in seconds) and total == #samples, timer count == #values, one family per name and one series per tag-value combination; conflicts: no panic other than the sentinel, at any point, and a rejected registration with other tag keys leaves the first, accepted family exposed with its values. Non-trivial: a sample equal to a bound, or >=2 series in a family, or a cross-kind/tag-key conflict. Distinct: FNV-64 of the case JSON.",
+		Rule: "rapid-generated histories (1..30 ops) on a tally root whose cached reporter is the Prometheus reporter on a fresh registry (separator '_', Prometheus sanitizer; timers as summaries or histograms; error callback returning or panicking with a sentinel): counters (non-negative deltas), gauges (hostile float bits), timers, value and duration histograms with GENERATED strictly increasing finite specs (1..8 bounds from pools of decimals, huge/tiny magnitudes, one-ulp neighbours; durations ns..11 days incl. millisecond-granular bounds above 1 s) and samples on / one ulp or ns above and below / around the bounds, 1..4 tagged scopes with the same tag keys and different values, report passes, and conflict programs (a name reused for another kind: counter/gauge, timer/histogram, counter/timer, histogram/counter; or with other tag keys) whose result is then used through every method. Oracle after a final pass: Gather() shows counter == sum, gauge == last update (bits), cumulative bucket counts == #samples <= bound with bounds == spec (durations in seconds) and total == #samples, timer count == #values, one family per name and one series per tag-value combination; conflicts: the rejected registration reaches the error callback, the same request made on the reporter directly returns a non-nil usable metric, no panic other than the sentinel, at any point, and a rejected registration with other tag keys leaves the first, accepted family exposed with its values. Non-trivial: a sample equal to a bound, or >=2 series in a family, or a cross-kind/tag-key conflict. Distinct: FNV-64 of the case JSON.",
 		Gen:  gen, Run: run,
 	})
 }
